@@ -10,7 +10,7 @@ b=FAIL; go build ./... >/dev/null 2>&1 && b=ok
 pk=$(go list ./... 2>/dev/null | grep -v /SEED)
 t=FAIL; go test -vet=off -count=1 $pk > $sd/confirm-suite.log 2>&1 && t=ok
 mkdir -p $dst; copied=""
-for f in $sd/demo*_test.go; do cp $f $dst/zz_seed_$(basename $f); copied="$copied $dst/zz_seed_$(basename $f)"; done
+for f in $sd/*_test.go; do cp $f $dst/zz_seed_$(basename $f); copied="$copied $dst/zz_seed_$(basename $f)"; done
 dw=pass; go test -vet=off -count=1 -tags seeddemo -run "$rx" ./$dst/ > $sd/confirm-demo-with.log 2>&1 || dw=FAILS
 git checkout -q -- .
 dn=FAILS; go test -vet=off -count=1 -tags seeddemo -run "$rx" ./$dst/ > $sd/confirm-demo-without.log 2>&1 && dn=pass
